@@ -5,11 +5,22 @@ From PAFC10 Require Import Model Proofs Proofs2 Proofs3 Proofs4.
 Import ListNotations.
 Open Scope list_scope.
 
-(* the guard of the exactness theorem for the current code, on a whole database *)
+(* the guard of the exactness theorem for the current code, on a whole database: unique child names,
+   LIKE-plain strings in contains / in_ tests, and the computable condition that negated junctions
+   could be rebuilt (neg_ok inside safe_with); nothing about Or-merges, info tests, NULL columns *)
 Definition guard_db (p : pred) (db : list fit) : Prop :=
-  safe_with current false true true true p = true /\
+  safe_with current false false true false p = true /\
   forallb wf_fit db = true /\
   forallb (fun f => forallb (acond_plain f) (attr_tests p)) db = true.
+
+Theorem exact_current p q f :
+  compile current p = Ok q -> safe_with current false false true false p = true -> wf_fit f = true ->
+  forallb (acond_plain f) (attr_tests p) = true -> sem q f = eval p f.
+Proof.
+  intros Hq Hs W Hp.
+  exact (compile_exact current false false false (or_intror eq_refl) (or_intror eq_refl) p q f Hq Hs W
+                       (or_intror (or_intror eq_refl)) Hp).
+Qed.
 
 Theorem pipeline_exact p q db top_only keys slices :
   compile current p = Ok q -> guard_db p db ->
@@ -17,7 +28,8 @@ Theorem pipeline_exact p q db top_only keys slices :
   spec_slices top_only (ordered keys (filter (eval p) db)) slices.
 Proof.
   intros Hq [Hs [W Hpl]].
-  rewrite (select_exact current false true true (or_intror eq_refl) (or_introl eq_refl) p q db Hq Hs W (or_introl eq_refl) Hpl).
+  rewrite (select_exact current false false false (or_intror eq_refl) (or_intror eq_refl) p q db Hq Hs W
+                        (or_intror (or_intror eq_refl)) Hpl).
   apply slices_current.
 Qed.
 
@@ -84,31 +96,3 @@ Proof.
 Qed.
 
 
-(* ---------- the code with the four proposed repairs (`next`) ---------- *)
-(* the guard no longer mentions Or-merges over different tables, negated info tests, negated
-   attribute tests or NULL columns; what remains: LIKE-plain strings, and the (computable) side
-   condition that every negated junction could be rebuilt *)
-Definition guard_next (p : pred) (db : list fit) : Prop :=
-  safe_with next false false true false p = true /\
-  forallb wf_fit db = true /\
-  forallb (fun f => forallb (acond_plain f) (attr_tests p)) db = true.
-
-Theorem exact_next p q f :
-  compile next p = Ok q -> safe_with next false false true false p = true -> wf_fit f = true ->
-  forallb (acond_plain f) (attr_tests p) = true -> sem q f = eval p f.
-Proof.
-  intros Hq Hs W Hp.
-  exact (compile_exact next false false false (or_intror eq_refl) (or_intror eq_refl) p q f Hq Hs W
-                       (or_intror (or_intror eq_refl)) Hp).
-Qed.
-
-Theorem pipeline_exact_next p q db top_only keys slices :
-  compile next p = Ok q -> guard_next p db ->
-  run_slices next top_only (ordered keys (select q db)) slices =
-  spec_slices top_only (ordered keys (filter (eval p) db)) slices.
-Proof.
-  intros Hq [Hs [W Hpl]].
-  rewrite (select_exact next false false false (or_intror eq_refl) (or_intror eq_refl) p q db Hq Hs W
-                        (or_intror (or_intror eq_refl)) Hpl).
-  apply slices_fixed. reflexivity.
-Qed.
